@@ -267,7 +267,7 @@ func typeChecks(src string) bool {
 
 func main() {
 	run := common.NewRun("C01")
-	run.Res.Rule = "cases = complete Go programs from a seeded type-directed grammar (functions, recursion, closures incl. loop-variable capture, if/else-if/for/range/switch/fallthrough/goto/labelled break-continue, multi-value calls, compound assignment to fields/elements/pointees, shadowing, defer, int/int8/uint16/float64/string/bool/struct/array/slice/map/pointer data) plus programs of the Lean core fragment; compared: stdout bytes and normal/panic end, yaegi vs compiled Go (vs Lean model and spec for core programs); non-trivial = contains at least one loop and one call or switch; distinct = distinct source text"
+	run.Res.Rule = "cases = complete Go programs from a seeded type-directed grammar (functions, recursion, closures incl. loop-variable capture, if/else-if/for/range/switch/fallthrough/goto/labelled break-continue, multi-value calls, compound assignment to fields/elements/pointees, shadowing, defer, int/int8/uint16/float64/string/bool/struct/array/slice/map/pointer data) plus programs of the Lean core fragment; compared: stdout bytes and normal/panic end, yaegi vs compiled Go (vs both levels of the Lean model — CFG and frame slots — and the Lean spec for core programs, whose right-hand sides are rendered unparenthesised so that cfg.go's write-into-destination shortcuts apply); non-trivial = contains at least one loop and one call or switch; distinct = distinct source text"
 	defer run.Finish()
 	findings, err := common.LoadFindings("C01")
 	if err != nil {
